@@ -60,6 +60,12 @@ def strRepeat (free1 free2 : Int) (len : Nat) (r : I64) : Out :=
     | none => .err
     | some n => if mustBeOk free1 free2 (n.sdiv 16#64) then .ok n.toNat else .guard
 
+/-- evalStringInfixExpression, `+` with a string on the right: MustBeOk((len(left) + len(right)) / ObjectSize)
+(added by the fix "string concatenation checks the memory budget"; before it the operator had no check) -/
+def strConcat (free1 free2 : Int) (la lb : Nat) : Out :=
+  let n : I64 := BitVec.ofNat 64 la + BitVec.ofNat 64 lb
+  if mustBeOk free1 free2 (n.sdiv 16#64) then .ok n.toNat else .guard
+
 /-- evalArrayInfixExpression, `*`: array of `len` elements times `r` (MakeObjectSlice(n)) -/
 def arrRepeat (free1 free2 : Int) (len : Nat) (r : I64) : Out :=
   if r.toInt < 0 then .err
